@@ -50,6 +50,29 @@ PROPS = {
         "assumptions": COMMON_ASSUME,
         "exhaustive_notes": ["every history of length <=4 (quick) / <=5 (thorough) over 18 operations on keys {a,b,c} x values {x, backslash-n, LF, backslash+LF}"],
     },
+    "C08": {
+        "quick": [L("checked", 1.0), L("wrapping", 0.5)],
+        "thorough": [L("checked", 1.0), L("wrapping", 0.5), L("asan", 0.05), L("miri", 0.00005, workers=16)],
+        "assumptions": COMMON_ASSUME,
+        "exhaustive_notes": ["all inputs over {0,1} of length 0..=14 (quick) / 0..=16 (thorough) and over {0,1,2} of length 0..=9 / 0..=10"],
+    },
+    "C09": {
+        "quick": [L("checked", 1.0), L("wrapping", 0.5)],
+        "thorough": [L("checked", 1.0), L("wrapping", 0.5), L("asan", 0.05), L("miri", 0.00005, workers=16)],
+        "assumptions": COMMON_ASSUME,
+        "exhaustive_notes": ["all non-empty inputs over {0,1} of length 1..=14 (quick) / 1..=16 (thorough) and over {0,1,2} of length 1..=9 / 1..=10"],
+    },
+    "C10": {
+        "quick": [L("checked", 1.0)],
+        "thorough": [L("checked", 1.0), L("wrapping", 0.125)],
+        "assumptions": COMMON_ASSUME,
+        "exhaustive_notes": ["thorough: all periods 1..=4096 x 3 pattern kinds x 13 total lengths x 2 formats"],
+    },
+    "C11": {
+        "quick": [L("checked", 1.0), L("wrapping", 1.0)],
+        "thorough": [L("checked", 1.0), L("wrapping", 1.0), L("asan", 0.1), L("memcheck", 0.002, workers=16), L("miri", 0.0001, workers=16)],
+        "assumptions": COMMON_ASSUME,
+    },
     "C02": {
         "quick": [L("checked", 1.0), L("wrapping", 0.25), L("checked", 1.0, mode="det", replicas=8)],
         "thorough": [L("checked", 1.0), L("wrapping", 0.25), L("checked", 1.0, mode="det", replicas=16),
